@@ -3,7 +3,7 @@ SPEC = {
     "id": "C19",
     "coq_targets": ["theories/Combine/Props_C19.vo", "theories/Combine/Findings.vo", "theories/Combine/Cases.vo"],
     "props": "theories/Combine/Props_C19.v",
-    "harness": [{"bin": "h_combine", "n": {"quick": 400, "thorough": 6000}, "args": ["--stream", "c19"],
+    "harness": [{"bin": "h_combine", "n": {"quick": 400, "thorough": 3000}, "args": ["--stream", "c19"],
                  "known_bits": {}}],
     "rule": "directed degenerate segment sets (all-zero interface ids, empty / single-entry / oversize segments, out-of-range MTUs, cross-wired peers, same segment as core and non-core), structural mutations of segment sets beaconed from small topologies, and random segment soup up to 25 (thorough: 40) segments; a case is non-trivial when it has at least one segment; distinct by full case text",
     "assumptions": ["usize/u64 arithmetic on list lengths does not wrap (fewer than 2^64 AS entries)",
